@@ -1,12 +1,341 @@
 /-
-C01 — property theorems. "A block header is accepted only with a protocol-sized quorum of valid precommits."
-Statements are about the executable model in Model.lean (tied to /repo by the correspondence harness go/cmd/c01).
+C01 — property theorems (only).
+"A block header is accepted only with a protocol-sized quorum of valid precommits."
+
+All statements are about the executable model in Model.lean (`verifySide` = VerifySideChainHeader,
+`verifySeal` = VerifySeal, `verifyMain` = verifyConsensusFieldMain, `verifyVotes`, `stepBls` = one iteration of
+the vote loop, `quorum`/`overThreshold` = OverThreshold with its float64 arithmetic), run with
+`Checks.current` = the checks present in /repo now. The model is tied to /repo by the differential harness
+go/cmd/c01 (same crafted headers through the real verifier and through this model); the constants
+(`Gen.*`: quorum fractions as float64 bit patterns, step codes, shipped committee sizes) are regenerated
+from the linked Go code on every run. Vocabulary (`Entitled`, `CredOK`, `SignedBy`, `ValidBallots`, `weight`,
+`ProposerOK`) is in Spec.lean; `Accepted`, `HonestBallots` in Proofs.lean.
+
+Cryptography is symbolic (Model.lean header); `C : Crypto` (the binomial quantile `choose` and
+`computePriority`) is universally quantified in every theorem.
 -/
 import YouVerif.C01.Proofs
 namespace YouVerif.C01.Props
 open YouVerif.C01
 
-/-- the uint32 accumulator never exceeds the true sum it stands for (wrap-around can only lose weight) -/
-theorem count_wrap_harmless (a b : Nat) : (a + b) % U32 ≤ a + b := Nat.mod_le _ _
+/-! ## Acceptance is sound -/
+
+/-- **accept_sound.** If `VerifySideChainHeader` accepts a header (BLS configuration, which every shipped version
+uses), then: the declared committee sizes are the protocol's; the proposer is an online chamber member of the
+look-back set whose credential verifies under the PROTOCOL's proposer size with at least one seat and the
+declared priority; and there is a set of pairwise distinct online chamber members of the look-back set, each
+holding a valid sortition credential for (look-back seed, precommit step, declared round index) worth exactly
+the seats it claims under the PROTOCOL's validator committee size, each having signed
+(this block hash, round, index), whose seats add up — as natural numbers, no wrap-around — to at least the
+quorum of the PROTOCOL's committee size. Moreover the aggregate contains no signature over anything else. -/
+theorem accept_sound {C : Crypto} {versions : Nat → Option Params} {cp : Params} {seedHdr : LbHeader}
+    {lb : LookBack} {certHdr : Option LbHeader} {certLb : LookBack} {h : Header} (hb : cp.enableBls = true)
+    (hok : verifySide Checks.current C versions cp seedHdr lb certHdr certLb h = .ok) :
+    ∃ seed ct c uc a S prop,
+      seedHdr.cons = some (seed, ct) ∧ h.cons = some c ∧ h.uc = some uc ∧ uc.agg = some a ∧
+      (c.pT = cp.pT ∧ c.vT = cp.vT ∧ c.cT = cp.cT) ∧
+      (prop ∈ lb.vals ∧ Entitled prop ∧ ProposerOK C prop seed c cp.pT lb.chamberStake) ∧
+      ValidBallots C lb seed Gen.stepPrecommit ⟨h.hash, c.round, uc.roundIndex⟩ cp.vT uc.votes a S ∧
+      quorum true cp.vT ≤ weight S ∧ (∀ x ∈ a, x.2 = ⟨h.hash, c.round, uc.roundIndex⟩) := by
+  unfold verifySide at hok
+  split at hok
+  · cases hok
+  · exact (verifyMain_sound hb hok).ex
+
+/-- the same through `VerifySeal` (which additionally checks the seal signature) -/
+theorem accept_sound_seal {C : Crypto} {versions : Nat → Option Params} {cp : Params} {seedHdr : LbHeader}
+    {lb : LookBack} {certHdr : Option LbHeader} {certLb : LookBack} {h : Header} (hb : cp.enableBls = true)
+    (hok : verifySeal Checks.current C versions cp seedHdr lb certHdr certLb h = .ok) :
+    Accepted C cp seedHdr lb h ∧ ∃ c, h.cons = some c ∧ h.sealSigner = c.signer := by
+  unfold verifySeal at hok
+  split at hok
+  · cases hok
+  · rename_i c hc
+    split at hok
+    · cases hok
+    · split at hok
+      · cases hok
+      · rename_i hs
+        refine ⟨verifyMain_sound hb hok, c, hc, ?_⟩
+        simp at hs
+        exact hs.2
+
+/-- **A header that declares committee sizes other than the protocol's is never accepted** (F-C01a repaired). -/
+theorem declared_sizes_must_be_protocol {C : Crypto} {versions : Nat → Option Params} {cp : Params} {seedHdr : LbHeader}
+    {lb : LookBack} {certHdr : Option LbHeader} {certLb : LookBack} {h : Header} {c : Cons}
+    (hc : h.cons = some c) (hne : c.vT ≠ cp.vT ∨ c.pT ≠ cp.pT ∨ c.cT ≠ cp.cT) :
+    verifyMain Checks.current C versions cp seedHdr lb certHdr certLb h ≠ .ok := by
+  intro hok
+  unfold verifyMain at hok
+  split at hok
+  · cases hok
+  · split at hok
+    · cases hok
+    · rename_i c' hc'
+      have : c' = c := by rw [hc] at hc'; cases hc'; rfl
+      subst this
+      split at hok
+      · cases hok
+      · rename_i hthr
+        simp [Checks.current] at hthr
+        rcases hne with h1 | h1 | h1
+        · exact h1 hthr.1.2
+        · exact h1 hthr.1.1
+        · exact h1 hthr.2
+
+/-- `verifyVotes` alone (any step, any quorum fraction): acceptance ⇒ a valid ballot set carrying a quorum. -/
+theorem votes_accept_sound {C : Crypto} {cd : CD} {lb : LookBack} {votes : List Vote} {agg : Option (List SigAtom)}
+    {step : Nat} {isPos : Bool} (hb : cd.enableBls = true)
+    (h : verifyVotes Checks.current C cd lb votes agg step isPos = .ok) :
+    ∃ a S, agg = some a ∧ ValidBallots C lb cd.seed step cd.payload cd.t votes a S ∧
+      quorum isPos cd.t ≤ weight S ∧ (∀ x ∈ a, x.2 = cd.payload) :=
+  verifyVotes_sound_bls hb h
+
+/-! ## Votes that contribute nothing -/
+
+/-- **dup_replay_contribute_nothing (duplicates).** A further vote of a member that has already been counted
+leaves the counter and the counted set unchanged, whatever it claims. -/
+theorem dup_replay_contribute_nothing {C : Crypto} {cd : CD} {vs : List Val} {total step : Nat} {st st' : VState}
+    {v : Vote} {val : Val} (hval : vs[v.idx]? = some val) (hdup : val.addr ∈ st.sta)
+    (h : stepBls Checks.current C cd vs total step st v = .cont st') :
+    st'.count = st.count ∧ st'.sta = st.sta := by
+  rcases stepBls_cases h with h1 | ⟨val', _, _, _, hv', _, hn, _⟩
+  · exact ⟨h1.2, h1.1⟩
+  · rw [hval] at hv'; cases hv'; exact absurd hdup hn
+
+/-- **(replays / wrong block).** A signature made for another block hash, round or round index cannot be part of
+an accepted aggregate: if the aggregate contains any signature whose payload is not exactly
+(this hash, this round, this index), the votes are rejected. -/
+theorem wrong_block_rejected {C : Crypto} {cd : CD} {lb : LookBack} {votes : List Vote} {a : List SigAtom}
+    {step : Nat} {isPos : Bool} (hb : cd.enableBls = true) {x : SigAtom} (hx : x ∈ a) (hne : x.2 ≠ cd.payload) :
+    verifyVotes Checks.current C cd lb votes (some a) step isPos ≠ .ok := by
+  intro hok
+  obtain ⟨a', _, ha, _, _, hall⟩ := verifyVotes_sound_bls hb hok
+  cases ha
+  exact hne (hall x hx)
+
+/-- **wrong_step_or_block_rejected (wrong step / index / seed / key).** A vote whose sortition proof was made
+for another step, round index or seed, or by another key than the indexed member's, is not counted. -/
+theorem wrong_step_or_block_rejected {C : Crypto} {cd : CD} {vs : List Val} {total step : Nat} {st st' : VState}
+    {v : Vote} {val : Val} {q : VrfProof} (hval : vs[v.idx]? = some val) (hq : v.proof = some q)
+    (hbad : q.role ≠ step ∨ q.index ≠ cd.payload.index ∨ q.seed ≠ cd.seed ∨ val.mainKey ≠ some q.key)
+    (h : stepBls Checks.current C cd vs total step st v = .cont st') :
+    st'.count = st.count ∧ st'.sta = st.sta := by
+  rcases stepBls_cases h with h1 | ⟨val', mk, hh, _, hv', _, _, hmk, hp, _⟩
+  · exact ⟨h1.2, h1.1⟩
+  · rw [hval] at hv'; cases hv'
+    obtain ⟨q', hq', hk, hs, hr, hi, _⟩ := proofToHash_some hp
+    rw [hq] at hq'; cases hq'
+    rcases hbad with hb | hb | hb | hb
+    · exact absurd hr hb
+    · exact absurd hi hb
+    · exact absurd hs hb
+    · exact absurd (by rw [hmk, hk]) hb
+
+/-- a vote without any valid proof is not counted -/
+theorem garbage_proof_rejected {C : Crypto} {cd : CD} {vs : List Val} {total step : Nat} {st st' : VState}
+    {v : Vote} (hq : v.proof = none)
+    (h : stepBls Checks.current C cd vs total step st v = .cont st') :
+    st'.count = st.count ∧ st'.sta = st.sta := by
+  rcases stepBls_cases h with h1 | ⟨_, _, _, _, _, _, _, _, hp, _⟩
+  · exact ⟨h1.2, h1.1⟩
+  · rw [hq] at hp; simp [proofToHash] at hp
+
+/-- **weight_inflation_rejected.** A vote claiming other seats than the quantile of its own VRF output (under the
+committee size in use and the member's look-back stake), or whose quantile is 0, is not counted at all. -/
+theorem weight_inflation_rejected {C : Crypto} {cd : CD} {vs : List Val} {total step : Nat} {st st' : VState}
+    {v : Vote} {val : Val} {q : VrfProof} {j : Int} (hval : vs[v.idx]? = some val) (hq : v.proof = some q)
+    (hj : C.ch q.hash val.stake cd.t total = some j) (hbad : j ≤ 0 ∨ u32 j ≠ v.votes)
+    (h : stepBls Checks.current C cd vs total step st v = .cont st') :
+    st'.count = st.count ∧ st'.sta = st.sta := by
+  rcases stepBls_cases h with h1 | ⟨val', mk, hh, j', hv', _, _, _, hp, hj', hpos, hu, _⟩
+  · exact ⟨h1.2, h1.1⟩
+  · rw [hval] at hv'; cases hv'
+    obtain ⟨q', hq', _, _, _, _, hhash⟩ := proofToHash_some hp
+    rw [hq] at hq'; cases hq'
+    rw [hhash, hj'] at hj; cases hj
+    rcases hbad with hb | hb
+    · omega
+    · exact absurd hu hb
+
+/-- **Non-member, offline and house signers contribute nothing** (F-C01b repaired): an index outside the
+look-back list stops verification with an error; a member that is not an online chamber member is skipped. -/
+theorem not_entitled_contributes_nothing {C : Crypto} {cd : CD} {vs : List Val} {total step : Nat} {st : VState}
+    {v : Vote} :
+    (vs[v.idx]? = none → stepBls Checks.current C cd vs total step st v = .stop (.err .signer)) ∧
+    (∀ val st', vs[v.idx]? = some val → ¬ Entitled val →
+      stepBls Checks.current C cd vs total step st v = .cont st' → st'.count = st.count ∧ st'.sta = st.sta) := by
+  constructor
+  · intro hn; unfold stepBls; simp [hn]
+  · intro val st' hval hne h
+    rcases stepBls_cases h with h1 | ⟨val', _, _, _, hv', he, _⟩
+    · exact ⟨h1.2, h1.1⟩
+    · rw [hval] at hv'; cases hv'; exact absurd he hne
+
+/-! ## The uint32 accumulator -/
+
+/-- **count_wrap_harmless.** The accumulator is the true weight modulo 2^32, hence never above it: wrap-around can
+only lose weight, it can never help a header over the quorum (this is the step used inside `accept_sound`,
+whose conclusion is about the un-wrapped sum). -/
+theorem count_wrap_harmless {C : Crypto} {cd : CD} {lb : LookBack} {step : Nat} {all : List Vote} {st : VState}
+    {S : List (Val × Vote)} (hinv : Inv C cd lb step all st S) : st.count ≤ weight S := by
+  rw [hinv.count]; exact Nat.mod_le _ _
+
+/-- the other direction does fail in the model: two honest members with 2^31 seats each wrap the counter to 0 and
+an honest header is rejected. (Seats never exceed the member's stake, so this needs ≥ 2^32 units of online
+chamber stake AND a committee size of that order; the protocol's sizes are 26/2000/4000.) -/
+theorem count_wrap_can_reject_counterexample :
+    let C : Crypto := { ch := fun _ _ _ _ => some 2147483648, prio := fun _ _ => 0 }
+    let v1 : Val := ⟨1, 5000000000, 0, 1, true, some 1, some 1⟩
+    let v2 : Val := ⟨2, 4000000000, 0, 1, true, some 2, some 2⟩
+    let lb : LookBack := ⟨[v1, v2], 9000000000⟩
+    let pl : Payload := ⟨7, 1, 1⟩
+    let cd : CD := ⟨true, 9, pl, 2000⟩
+    let votes : List Vote := [⟨0, 2147483648, some ⟨1, 9, 3, 1, 11⟩, none⟩, ⟨1, 2147483648, some ⟨2, 9, 3, 1, 12⟩, none⟩]
+    verifyVotes Checks.current C cd lb votes (some [(1, pl), (2, pl)]) 3 true = .err (.invalid .notEnough) := by
+  decide
+
+/-! ## Honest headers verify -/
+
+/-- **builder_header_accepted.** What honest participants produce is accepted by `VerifySideChainHeader`: the
+proposer is an entitled member with a valid credential under the protocol's sizes, the declared sizes are the
+protocol's, every ballot is an entitled member's genuine vote (packed in any order, aggregate = exactly their
+signatures), the weight reaches the quorum and stays below 2^32. (Rounds without a certificate.) -/
+theorem builder_header_accepted {C : Crypto} {versions : Nat → Option Params} {cp : Params} {seedHdr : LbHeader}
+    {lb : LookBack} {certHdr : Option LbHeader} {certLb : LookBack} {h : Header}
+    {seed ct ri : Nat} {c : Cons} {prop : Val} {S : List (Val × Vote)}
+    (hb : cp.enableBls = true) (hpar : h.parentOK = true) (hseed : seedHdr.cons = some (seed, ct)) (hc : h.cons = some c)
+    (hT : c.pT = cp.pT ∧ c.vT = cp.vT ∧ c.cT = cp.cT)
+    (hprop : lb.byKey c.signer = some prop) (hE : Entitled prop)
+    (hP : ProposerOK C prop seed c cp.pT lb.chamberStake) (htot : lb.chamberStake % U64 ≠ 0)
+    (huc : h.uc = some ⟨ri, S.map (·.2), some ((blsKeys S).map fun k => (k, ⟨h.hash, c.round, ri⟩))⟩)
+    (hS : S ≠ []) (hh : HonestBallots C lb seed Gen.stepPrecommit ⟨h.hash, c.round, ri⟩ cp.vT S)
+    (hq : quorum true cp.vT ≤ weight S) (hw : weight S < U32) (hcert : isCertRound h.number = false) :
+    verifySide Checks.current C versions cp seedHdr lb certHdr certLb h = .ok := by
+  unfold verifySide
+  simp only [hpar, Bool.not_true, Bool.false_eq_true, if_false]
+  exact verifyMain_honest hb hseed hc hT hprop hE hP htot huc hS hh hq hw hcert
+
+/-- vote-list level, any step and fraction (covers certificates) -/
+theorem honest_votes_accepted {C : Crypto} {cd : CD} {lb : LookBack} {step : Nat} {isPos : Bool}
+    {S : List (Val × Vote)} (hb : cd.enableBls = true) (hS : S ≠ [])
+    (hh : HonestBallots C lb cd.seed step cd.payload cd.t S)
+    (hq : quorum isPos cd.t ≤ weight S) (hw : weight S < U32) :
+    verifyVotes Checks.current C cd lb (S.map (·.2)) (some ((blsKeys S).map fun k => (k, cd.payload))) step isPos = .ok :=
+  verifyVotes_honest hb hS hh hq hw
+
+/-! ## The quorum itself (exact float64 model of `uint32(float64(T) * 0.685)`) -/
+
+/-- every shipped version of every network: 2000 seats → quorum 1370, certificates 4000 → 2340, proposer size 26,
+BLS enabled (decided over the table regenerated from `params.Versions`) -/
+theorem shipped_quorums :
+    Gen.shipped.all (fun e => e.2.2.1 == true && e.2.2.2.1 == 26 &&
+      quorum true e.2.2.2.2.1 == 1370 && quorum false e.2.2.2.2.2 == 2340) = true := by
+  decide
+
+/-- for every committee size below 4096 the float computation of the precommit quorum equals the exact rational
+floor ⌊137·T/200⌋; the certificate quorum equals ⌊117·T/200⌋ except at some multiples of 200 (first: 3400), where
+the float64 nearest to 0.585 being below 0.585 makes it one seat less. Bounded check by kernel evaluation. -/
+theorem quorum_exact_below_4096 :
+    (List.range 4096).all (fun t => quorum true t == 137 * t / 200 &&
+      (quorum false t == 117 * t / 200 || (t % 200 == 0 && quorum false t + 1 == 117 * t / 200))) = true := by
+  decide +kernel
+
+/-- full statement (not proved; sampled up to 2^64 by the OverThreshold correspondence): the same for every size a
+uint32 can hold -/
+def quorum_exact_statement : Prop :=
+  ∀ t, t < U32 → quorum true t = 137 * t / 200 ∧ quorum false t ≤ 117 * t / 200 ∧ 117 * t / 200 ≤ quorum false t + 1
+
+/-- a committee size of 0 or 1 gives quorum 0, every size from 2 to 4095 gives a positive quorum -/
+theorem quorum_zero_only_below_two :
+    quorum true 0 = 0 ∧ quorum true 1 = 0 ∧ (List.range 4094).all (fun t => decide (0 < quorum true (t + 2))) = true := by
+  refine ⟨by decide, by decide, by decide +kernel⟩
+
+/-! ## The defects that were repaired: each missing check makes the property false (model witnesses;
+the same witnesses were replayed on the real verifier before the repair, see corpus/C01) -/
+
+section legacy
+/-- one small world: two chamber members, one house member, one offline chamber member; every VRF output is worth
+1000 seats except hash 13 (0 seats) and committee sizes ≤ 1 -/
+def wC : Crypto := { ch := fun h _ t _ => some (if t ≤ 1 then 0 else if h = 13 then 0 else 1000), prio := fun _ _ => 5 }
+def wLb : LookBack := ⟨[⟨1, 9000, 0, 1, true, some 1, some 1⟩, ⟨2, 8000, 0, 1, true, some 2, some 2⟩,
+                        ⟨3, 7000, 0, 2, true, some 3, some 3⟩, ⟨4, 6000, 0, 1, false, some 4, some 4⟩], 17000⟩
+def wCp : Params := ⟨true, 26, 2000, 4000⟩
+def wSeed : LbHeader := ⟨some (9, 4000), 1⟩
+def wPl : Payload := ⟨7, 100, 1⟩
+def wNoV : Nat → Option Params := fun _ => none
+/-- consensus data of proposer 1 (selected, 1000 sub-users) declaring validator committee size `vT` -/
+def wCons (vT : Nat) : Cons := ⟨100, 1, 0, some ⟨1, 9, 1, 1, 11⟩, 5, 1000, 26, vT, 4000, .key 1⟩
+def wHeader (c : Cons) (votes : List Vote) (agg : List SigAtom) : Header :=
+  ⟨100, 7, some c, some ⟨1, votes, some agg⟩, none, c.signer, true⟩
+/-- precommit of the member at sorted position `i` holding key `k` (VRF output `h`), claiming 1000 seats -/
+def wVote (i k h : Nat) : Vote := ⟨i, 1000, some ⟨k, 9, 3, 1, h⟩, none⟩
+def wRun (ck : Checks) (h : Header) : Res := verifyMain ck wC wNoV wCp wSeed wLb none ⟨[], 0⟩ h
+
+/-- F-C01a: without the threshold check a header declaring committee size 3 is accepted with ONE vote;
+the current verifier rejects it -/
+theorem legacy_declared_threshold_counterexample :
+    wRun ⟨false, true, true, true⟩ (wHeader (wCons 3) [wVote 0 1 11] [(1, wPl)]) = .ok ∧
+    wRun Checks.current (wHeader (wCons 3) [wVote 0 1 11] [(1, wPl)]) = .err (.invalid .thresholds) := by
+  decide
+
+/-- F-C01b: without the entitlement check the house member (position 2) and the offline member (position 3)
+alone carry a block -/
+theorem legacy_not_entitled_counterexample :
+    wRun ⟨true, false, true, true⟩ (wHeader (wCons 2000) [wVote 2 3 11, wVote 3 4 12] [(3, wPl), (4, wPl)]) = .ok ∧
+    wRun Checks.current (wHeader (wCons 2000) [wVote 2 3 11, wVote 3 4 12] [(3, wPl), (4, wPl)])
+      = .err (.invalid .notEnough) := by
+  decide
+
+/-- F-C01c: without the proposer check the house member, NOT selected (VRF output 13 is worth 0 seats), proposes
+with 0 declared sub-users -/
+theorem legacy_proposer_counterexample :
+    let c : Cons := ⟨100, 1, 0, some ⟨3, 9, 1, 1, 13⟩, 5, 0, 26, 2000, 4000, .key 3⟩
+    wRun ⟨true, true, false, true⟩ (wHeader c [wVote 0 1 11, wVote 1 2 12] [(1, wPl), (2, wPl)]) = .ok ∧
+    wRun Checks.current (wHeader c [wVote 0 1 11, wVote 1 2 12] [(1, wPl), (2, wPl)]) = .err .proposer := by
+  decide
+
+/-- F-C01d: without the identity guard the identity aggregate makes the verifier panic after the votes were counted -/
+theorem legacy_identity_aggregate_counterexample :
+    wRun ⟨true, true, true, false⟩ (wHeader (wCons 2000) [wVote 0 1 11, wVote 1 2 12] []) = .crash ∧
+    wRun Checks.current (wHeader (wCons 2000) [wVote 0 1 11, wVote 1 2 12] []) = .err .sigmismatch := by
+  decide
+end legacy
+
+/-! ## Non-vacuity: the hypotheses of the theorems above are met by concrete, non-trivial instances -/
+
+/-- an accepted header exists (two distinct voters, 2000 seats ≥ 1370), so `accept_sound` is not vacuous -/
+example : verifySide Checks.current wC wNoV wCp wSeed wLb none ⟨[], 0⟩
+    (wHeader (wCons 2000) [wVote 0 1 11, wVote 1 2 12] [(2, wPl), (1, wPl)]) = .ok := by
+  decide
+
+/-- … and the same header with the second vote replaced by a duplicate of the first is rejected (test) -/
+example : verifySide Checks.current wC wNoV wCp wSeed wLb none ⟨[], 0⟩
+    (wHeader (wCons 2000) [wVote 0 1 11, wVote 0 1 11] [(1, wPl)]) = .err (.invalid .notEnough) := by
+  decide
+
+/-- … as is the one whose second signature was made for another block hash (test) -/
+example : verifySide Checks.current wC wNoV wCp wSeed wLb none ⟨[], 0⟩
+    (wHeader (wCons 2000) [wVote 0 1 11, wVote 1 2 12] [(1, wPl), (2, ⟨8, 100, 1⟩)]) = .err .sigmismatch := by
+  decide
+
+/-- hypotheses of `dup_replay_contribute_nothing` / `wrong_step_or_block_rejected` / `weight_inflation_rejected` are
+satisfiable: a state in which member 1 is counted, and a second, inflated vote of member 1 -/
+example : stepBls Checks.current wC ⟨true, 9, wPl, 2000⟩ wLb.sorted 17000 3 ⟨[1], [1], 1000⟩
+    ⟨0, 99999, some ⟨1, 9, 3, 1, 11⟩, none⟩ = .cont ⟨[1], [1], 1000⟩ ∧
+    wLb.sorted[0]? = some ⟨1, 9000, 0, 1, true, some 1, some 1⟩ := by
+  decide
+
+/-- the hypotheses of `builder_header_accepted` hold of the accepted header above: its ballots are honest -/
+example : HonestBallots wC wLb 9 Gen.stepPrecommit wPl 2000
+    [(⟨1, 9000, 0, 1, true, some 1, some 1⟩, wVote 0 1 11), (⟨2, 8000, 0, 1, true, some 2, some 2⟩, wVote 1 2 12)] :=
+  ⟨by decide, by decide, by decide, by simp [Entitled, Gen.kindChamber],
+   by
+    intro p hp
+    simp only [List.mem_cons, List.mem_nil_iff, or_false] at hp
+    rcases hp with rfl | rfl
+    · exact ⟨1, 11, 1000, rfl, by decide, rfl, by decide, by decide⟩
+    · exact ⟨2, 12, 1000, rfl, by decide, rfl, by decide, by decide⟩,
+   by decide⟩
 
 end YouVerif.C01.Props
